@@ -159,6 +159,13 @@ func (ph *peerHandler) startIfDisconnected() {
 	ph.mu.Lock()
 	defer ph.mu.Unlock()
 
+	// Never (re)start once stopped: stop() cancels the context before it takes
+	// the lock, so a goroutine spawned before Stop/RemovePeer and scheduled after
+	// it either sees the cancellation here or has its timer cleared by stop().
+	if ph.ctx.Err() != nil {
+		return
+	}
+
 	if ph.reconnectTimer == nil && ph.host.Network().Connectedness(ph.peer) != network.Connected {
 		logger.Debugw("disconnected from peer", "peer", ph.peer)
 		// Always start with a short timeout so we can stagger things a bit.
